@@ -357,11 +357,9 @@ inductive DbOp where
 
 def DB.step (db : DB) : DbOp → DB
   | .write d h k =>
-    let s := match db.seg d with | some s => s | none => {}
+    let s := (db.seg d).getD {}
     if !s.listed || s.del then db else
-    let s1 := s.hold
-    let t := match s1.tab h with | some t => t | none => {}
-    db.put d ((s1.putTable h (t.introduce k)).release)
+    db.put d ((s.hold.putTable h (((s.hold.tab h).getD {}).introduce k)).release)
   | .flush d h => db.modifyTable d h Table.flush
   | .mergeAll d h => db.modifyTable d h fun t =>
       t.merge (List.range (match t.cur with | some s => s.diskParts.length | none => 0))
@@ -405,6 +403,11 @@ def shardLoop {σ : Type} (L : DLens σ) (hook : Nat → σ → σ) (failAt : Op
     | (st', ⟨.err, _⟩, p') => (st', acc, true, p')
     | (st', ⟨_, dst⟩, p') => shardLoop L hook failAt d rest p' st' (acc ++ [(h, dst.getD {})])
 
+/-- artifacts `includeInClosedSnapshot` keeps out of a closed-segment hard link (bluge lock file, external-segment
+    temp directory, failed-parts directory) and the excluded extension: the closed copy below therefore consists of
+    part directories and manifests only, like the copy of an open segment. -/
+def closedExcludes : List String := ["bluge.pid", "external-segment-temp", "failed-parts", ".tmp"]
+
 /-- `segment.snapshotInto`: decided under the segment lock. Result: state, status, the segment directory written
     (if any), next call index. -/
 def snapshotInto {σ : Type} (L : DLens σ) (hook : Nat → σ → σ) (failAt : Option Nat) (d : Nat) (p : Nat) (st : σ) :
@@ -444,10 +447,13 @@ def segLoop {σ : Type} (L : DLens σ) (hook : Nat → σ → σ) (failAt : Opti
     | (st', .skipped, _, p') => segLoop L hook failAt rest p' st' acc
     | (st', .ok, sd, p') => segLoop L hook failAt rest p' st' (acc ++ (sd.map fun x => (d, x)).toList)
 
+/-- `segmentController.copySegments()`: the segments currently listed, without touching any of them. -/
+def DB.listedDays (db : DB) : List Nat :=
+  db.days.filter fun d => match db.seg d with | some s => s.listed | none => false
+
 /-- `database.TakeFileSnapshot`. -/
 def snapshotDb {σ : Type} (L : DLens σ) (hook : Nat → σ → σ) (failAt : Option Nat) (st : σ) : σ × DbRet :=
-  let db := L.get st
-  let days := db.days.filter fun d => match db.seg d with | some s => s.listed | none => false  -- copySegments()
+  let days := (L.get st).listedDays
   if days.isEmpty then (st, ⟨.nothing, none⟩) else
   match segLoop L hook failAt days 0 st [] with
   | (st', _, true) => (st', ⟨.err, none⟩)                          -- `defer if err != nil { MustRMAll(dst) }`
